@@ -447,7 +447,13 @@ impl<T: Debug + PartialEq, F: RealNumber, D: Distance<T, F>> CoverTree<T, F, D> 
         if d <= F::zero() {
             std::i64::MIN
         } else {
-            (self.inv_log_base * d.ln()).ceil().to_i64().unwrap()
+            let s = (self.inv_log_base * d.ln()).ceil().to_i64().unwrap();
+            // the logarithm is rounded: make sure the cover radius of the returned scale reaches d
+            if self.get_cover_radius(s) < d {
+                s + 1
+            } else {
+                s
+            }
         }
     }
 
